@@ -39,17 +39,29 @@ print('CONFIRMED' if (ok_existing and demo_fails and demo_passes) else 'NOT CONF
 verdicts = {}
 scratch_out = tempfile.mkdtemp(prefix='seed-out-')   # findings / evidence of runs on a seeded tree never overwrite /verif/evidence
 if ok_existing and demo_fails and demo_passes:
-    subprocess.run(['git', '-C', '/repo', 'apply', patch], check=True)
+    scratch_repo = None
+    if os.environ.get('SEED_SCRATCH'):
+        # several seeds at once: the checks read a patched scratch copy of /repo's HEAD (VERIF_REPO) instead of /repo itself
+        scratch_repo = tempfile.mkdtemp(prefix='seed-repo-')
+        subprocess.run(f'git -C /repo archive HEAD | tar -x -C {scratch_repo} && git -C {scratch_repo} init -q && git -C {scratch_repo} apply {patch}', shell=True, check=True)
+    else:
+        subprocess.run(['git', '-C', '/repo', 'apply', patch], check=True)
     try:
         for c in checks:
-            r = subprocess.run([os.path.join(VERIF, 'check'), c], capture_output=True, text=True, env=dict(os.environ, VERIF_OUT=scratch_out))
+            cenv = dict(os.environ, VERIF_OUT=scratch_out)
+            if scratch_repo:
+                cenv['VERIF_REPO'] = scratch_repo
+            r = subprocess.run([os.path.join(VERIF, 'check'), c], capture_output=True, text=True, env=cenv)
             lines = [l for l in r.stdout.splitlines() if l.startswith('  rule') or l.startswith('[') or l.startswith('KNOWN')]
             verdicts[c] = {'exit': r.returncode, 'lines': [l[:300] for l in lines[:10]]}
             print(c, 'exit', r.returncode)
             for l in lines[:6]:
                 print('   ', l[:260])
     finally:
-        subprocess.run(['git', '-C', '/repo', 'checkout', '--', '.'], check=True)
+        if scratch_repo:
+            shutil.rmtree(scratch_repo, ignore_errors=True)
+        else:
+            subprocess.run(['git', '-C', '/repo', 'checkout', '--', '.'], check=True)
     out = os.path.join(VERIF, 'seeded', name)
     os.makedirs(out, exist_ok=True)
     shutil.copy(patch, os.path.join(out, 'patch.diff'))
